@@ -96,6 +96,12 @@ CHECKS = {
         text="(a) committed model + every (definition x optional property) addition and every kind of type expression read back losslessly; (b) all lists <=3 over 4 documents merged = concatenation; (c) every declaration x every single structural edit: equality verdicts, no raise; (d) every schema definition x rule kind x site class x 5 plugins: command fails, no plugin called, nothing written.",
         note="Structural = everything except annotation fields; plugins observed through recording wrappers on their public generate entry point.",
         ref="3/C18"),
+    "C19": dict(
+        engine="SCHED",
+        technique="stateless preemption-bounded exploration of all interleavings of real threads at line granularity of the package modules (iterative context bounding), plus exhaustive enumeration of converter-creation histories in fresh processes",
+        text="N=2/3 real threads do get_converter()+battery as first use under a cooperative scheduler (settrace line events, cooperative replacement of package locks, deadlock detection); every schedule within the preemption bound is executed and compared with the sequential reference. All creation histories up to length 3/4 over {fresh, user-supplied, detailed_validation off, re-register, user hook} in freshly forked processes, plus 100 sequential creations.",
+        note="Library code (attrs/cattrs/typing) is atomic; switches only at line boundaries of lsprotocol's own non-generated modules; functions audited (AST) as converter-local run atomically.",
+        ref="3/C19"),
 }
 
 PENDING_REASON = "check not built yet in this session (planned, see DESIGN.md section 3); not claimed until it exists"
@@ -152,6 +158,7 @@ ENGINES = [
     {"name": "VSE", "path": "lspverif/vse.py", "serves_properties": ["C01", "C02", "C03", "C10", "C11", "C13", "C14", "C15"], "kind_free_text": "deviation-bounded exhaustive value-space explorer over the metamodel grammar"},
     {"name": "BISIM", "path": "lspverif/img_py.py", "serves_properties": ["C04", "C05", "C09"], "kind_free_text": "product-graph exploration metamodel x generated artefact, simulation checked in both directions"},
     {"name": "HIST", "path": "lspverif/hist.py", "serves_properties": ["C16", "C18"], "kind_free_text": "exhaustive enumeration of event histories on the real generator entry points with nondeterminism seams"},
+    {"name": "SCHED", "path": "lspverif/sched.py", "serves_properties": ["C19"], "kind_free_text": "stateless schedule explorer for real Python threads (settrace + semaphore baton), preemption-bounded"},
     {"name": "GRID", "path": "lspverif/props/c12.py", "serves_properties": ["C12", "C20"], "kind_free_text": "exhaustive boundary-grid enumeration on the real classes and validators"},
 ]
 
